@@ -102,7 +102,13 @@ def run_layer_a(rep: C.Report, n: int, oracle, rng, corpus_dir=None):
         while len(todo) < n:
             todo.append(LA.prepare_case(rng))
         for case in todo:
-            o = LA.run_impl(case, sb)
+            try:
+                o = LA.run_impl(case, sb)
+            except LA.sim.RequestBudgetExceeded as e:
+                found = True
+                rep.violation(f"the download of one file does not terminate: {e.path} was requested more than {e.n} times",
+                              {"kind": "oracle", "tie": "layer_a", "case": LA.jsonable(case)}, tags={"oracle": "termination"})
+                continue
             rep.case(nontrivial_key(case, o),
                      sample={"ctor": case["ctor"], "flags": case["flags"], "variants": case["variants"], "style": case["style"],
                              "outcome": o["kind"], "reqs": o["reqs"]})
